@@ -301,7 +301,10 @@ class DRFNet(BayesianNetwork):
             n = self.Ns
         elif type(n) == int:
             n = [n] * self.e
-        # Generate a sample for each environment
+        # Generate a sample for each environment. A single generator is
+        # used for all bootstrap samples, so that source variables are
+        # resampled independently of each other
+        rng = np.random.default_rng(random_state)
         sampled_data = []
         for k in range(self.e):
             sample = np.zeros((n[k], self.p), dtype=float)
@@ -309,7 +312,7 @@ class DRFNet(BayesianNetwork):
                 if self._random_forests[i, k] is None:
                     # Node has no parents, generate a sample using bootstrapping
                     sample[:, i] = _bootstrap(
-                        self._data[k][:, i], n[k], random_state=random_state
+                        self._data[k][:, i], n[k], random_state=rng
                     )
                 else:
                     parents = sempler.utils.pa(i, self.graph)
